@@ -11,12 +11,14 @@ cd /verif/harness
 PKGS=$(python3 - <<'PY'
 import json
 m = json.load(open('/verif/MANIFEST.json'))
-bins = sorted({c['engine'] for c in m['checks']})
+bins = sorted({c['engine'] for c in m['checks']} - {'vc-aig'})
+if {'vc-proj', 'vc-fault', 'vc-ls', 'vc-dep', 'vc-test'} & set(bins):
+    bins += ['vcli', 'vls']
 print(' '.join('-p ' + b for b in bins))
 PY
 )
 cargo build --release $PKGS
 # vc-aig enables the synthesizer's `aig` feature: built on its own so the
 # feature is not unified into the other binaries
-if echo "$PKGS" | grep -q vc-aig; then cargo build --release -p vc-aig; fi
+if grep -q '"engine": "vc-aig"' /verif/MANIFEST.json; then cargo build --release -p vc-aig; fi
 echo "setup done"
